@@ -55,6 +55,7 @@ type task struct {
 // RoundStats are reach measures of a round.
 type RoundStats struct {
 	Steps, Switches, InLock, TryFails, Stalls int
+	SharedSwitch                              int // preemptions inside the lock-free hint refresh of a shared filter
 	Tasks                                     int
 	Queries                                   int
 	SharedFirstUse                            int
@@ -161,6 +162,7 @@ func (se *Session) RunRound(r *sim.ParRound, raceLog string) []int16 {
 	se.Stats.Steps += steps
 	se.Stats.Switches += switches
 	se.Stats.InLock += inLock
+	se.Stats.SharedSwitch += sharedSwitches()
 	se.Stats.TryFails += tryFails
 	se.Stats.Stalls += stalls
 	se.Stats.Tasks += n
